@@ -8,15 +8,13 @@
      rd_read  = ONE call of bytes.Reader.Read(b) (io.EOF at end of input even when len b = 0;
                                                   otherwise copies min(len b, available) and returns nil)
      rd_full  = io.ReadFull(rd, b)               (nil for len b = 0; io.EOF / io.ErrUnexpectedEOF when short)
-   Where the code that exists deviates from property C03 the faithful transcription is impl_X, the
-   behaviour the property demands is spec_X, and X (fx : bool) selects (fx = true: repaired).
-   Flags (false = the code as it exists today):
-          fx1 fixed-width readers use reader.Read      (finding C03-1)
-          fx2 ReadBytesLen / ReadBytes17 use rd.Read   (finding C03-2)
-          fx3 extended Forge short is one byte          (finding C03-3); once repaired the short is
-              read with ReadUint16, so fx1 then matters for ReadExtendedForgeShort / ReadBytes17 too
-          fx4 ReadProperties has no negative-count test (finding C03-4)
-          fx5 ReadMinimalKey ignores the namespace      (finding C03-5)
+   Naming.  Every definition transcribes the code AS IT IS NOW (after the fix commits 2257945,
+   4d8a5a4, 6e760d1, 94741d1, 23e030f that repaired findings C03-1..5).  Where a reader or writer was
+   changed by one of those commits, today's code is impl_X and the code before the commit is kept as
+   old_X, a clearly labelled PRE-FIX variant used only by the historical lemmas (old_X refuted on a
+   concrete input, old_X = impl_X off the trigger).  spec_X exists only where the property's format
+   is written independently of the code (the extended Forge short, arithmetic instead of bit
+   operations); Proofs show impl_X = spec_X there.
    Allocation: for every reader that calls make() with a size taken from the input, len_T is the
    transcription of the reader up to that make() and returns the size; the reader itself is
    len_T followed by the body read, so an error of len_T is an error before allocation. *)
@@ -92,18 +90,17 @@ Definition write_uint8 (x : N) : bytes := [x mod 256].
 Definition read_bool : dec_t bool := dmap (fun b => negb (b =? 0)) read_uint8.
 Definition write_bool (b : bool) : bytes := [if b then 1 else 0].
 
-(* ReadUint16/32/64 as written: var buf [w]byte; _, err = reader.Read(buf[:w]); BigEndian.UintK(buf) *)
-Definition impl_read_uint (w : N) : dec_t N := fun s => bind (rd_read w s) (fun buf r => Ok (be_val buf, r)).
-(* what C03 demands: io.ReadFull *)
-Definition spec_read_uint (w : N) : dec_t N := fun s => bind (rd_full w s) (fun buf r => Ok (be_val buf, r)).
-Definition read_uint (fx1 : bool) : N -> dec_t N := if fx1 then spec_read_uint else impl_read_uint.
+(* ReadUint16/32/64: var buf [w]byte; _, err = io.ReadFull(reader, buf[:w]); BigEndian.UintK(buf) *)
+Definition impl_read_uint (w : N) : dec_t N := fun s => bind (rd_full w s) (fun buf r => Ok (be_val buf, r)).
+(* PRE-FIX (before 2257945, finding C03-1): _, err = reader.Read(buf[:w]) *)
+Definition old_read_uint (w : N) : dec_t N := fun s => bind (rd_read w s) (fun buf r => Ok (be_val buf, r)).
 Definition write_uint (w : nat) (x : N) : bytes := be_enc w x.
 
 (* ReadInt8/16/32/64, ReadInt: signed view of the unsigned read.  ReadFloat32/64 are the unsigned
    reads (math.FloatKfrombits is the identity on bit patterns). *)
 Definition read_int8 : dec_t Z := dmap (to_signed 8) read_uint8.
 Definition write_int8 (z : Z) : bytes := write_uint8 (of_signed 8 z).
-Definition read_int (fx1 : bool) (w : N) : dec_t Z := dmap (to_signed (8 * w)) (read_uint fx1 w).
+Definition read_int (w : N) : dec_t Z := dmap (to_signed (8 * w)) (impl_read_uint w).
 Definition write_int (w : nat) (z : Z) : bytes := be_enc w (of_signed (8 * N.of_nat w) z).
 
 (* ---------- VarInt (WriteVarIntN / ReadVarIntReturnN, io.ByteReader branch) ---------- *)
@@ -137,12 +134,14 @@ Definition write_uuid_ints (u : bytes) : bytes :=
   be_enc 4 (msb / 2 ^ 32) ++ be_enc 4 msb ++ be_enc 4 (lsb / 2 ^ 32) ++ be_enc 4 lsb.
 (* ReadUUIDIntArray: four ReadInt; msb := int64(hi)<<32 | int64(lo)&0xFFFFFFFF, as uint64 that is
    hi * 2^32 + lo on the unsigned 32-bit patterns; then uuid.FromBytes(msb bytes ++ lsb bytes) *)
-Definition read_uuid_ints (fx1 : bool) : dec_t bytes := fun s =>
-  bind (read_uint fx1 4 s) (fun a r1 =>
-  bind (read_uint fx1 4 r1) (fun b r2 =>
-  bind (read_uint fx1 4 r2) (fun c r3 =>
-  bind (read_uint fx1 4 r3) (fun d r4 =>
+Definition read_uuid_ints_with (ru : N -> dec_t N) : dec_t bytes := fun s =>
+  bind (ru 4 s) (fun a r1 =>
+  bind (ru 4 r1) (fun b r2 =>
+  bind (ru 4 r2) (fun c r3 =>
+  bind (ru 4 r3) (fun d r4 =>
   Ok (be_enc 8 (a * 2 ^ 32 + b) ++ be_enc 8 (c * 2 ^ 32 + d), r4))))).
+Definition impl_read_uuid_ints : dec_t bytes := read_uuid_ints_with impl_read_uint.
+Definition old_read_uuid_ints : dec_t bytes := read_uuid_ints_with old_read_uint.    (* PRE-FIX, C03-1 *)
 
 (* ---------- strings and byte arrays ---------- *)
 
@@ -165,53 +164,67 @@ Definition len_bytes (max : Z) : dec_t N := fun s =>
     if (l <? 0)%Z then Err ENegLen
     else if (max <? l)%Z then Err EOverLimit
     else Ok (Z.to_N l, r)).
-Definition impl_read_bytes_len (max : Z) : dec_t bytes := fun s => bind (len_bytes max s) (fun n r => rd_read n r).
-Definition spec_read_bytes_len (max : Z) : dec_t bytes := fun s => bind (len_bytes max s) (fun n r => rd_full n r).
-Definition read_bytes_len (fx2 : bool) : Z -> dec_t bytes := if fx2 then spec_read_bytes_len else impl_read_bytes_len.
+(* bytes = make([]byte, length); _, err = io.ReadFull(rd, bytes) *)
+Definition impl_read_bytes_len (max : Z) : dec_t bytes := fun s => bind (len_bytes max s) (fun n r => rd_full n r).
+(* PRE-FIX (before 4d8a5a4, finding C03-2): _, err = rd.Read(bytes) *)
+Definition old_read_bytes_len (max : Z) : dec_t bytes := fun s => bind (len_bytes max s) (fun n r => rd_read n r).
 Definition write_bytes : bytes -> bytes := write_string.
 
 (* ---------- 1.7 arrays: extended Forge short + bytes ---------- *)
 
-(* WriteExtendedForgeShort as written: WriteInt8(int8(low)) keeps one byte of the short *)
+(* WriteExtendedForgeShort: low := n & 0x7FFF; high := (n & 0x7F8000) >> 15; if high != 0 { low |= 0x8000 };
+   WriteUint16(uint16(low)); if high != 0 { Write([]byte{byte(high)}) } *)
 Definition impl_write_fshort (n : N) : bytes :=
   let low := N.land n 32767 in
   let high := N.shiftr (N.land n 8355840) 15 in          (* 0x7F8000 *)
   let low := if high =? 0 then low else N.lor low 32768 in
-  (low mod 256) :: (if high =? 0 then [] else [high mod 256]).
-(* ReadExtendedForgeShort as written: ReadUint8, then tests bit 15 of an 8-bit value *)
-Definition impl_read_fshort : dec_t N := fun s =>
-  bind (rd_byte s) (fun low r =>
-    if N.land low 32768 =? 0 then Ok (low, r)
-    else bind (rd_byte r) (fun high r' =>
-      Ok (N.lor (N.shiftl (N.land high 255) 15) (N.land low 32767), r'))).
+  be_enc 2 low ++ (if high =? 0 then [] else [high mod 256]).
+(* ReadExtendedForgeShort: low := ReadUint16; if low&0x8000 != 0 { low &= 0x7FFF; high := ReadUint8 };
+   return ((high & 0xFF) << 15) | low.  The part after the ReadUint16: *)
+Definition impl_fshort_tail (low : N) (r : bytes) : res (N * bytes) :=
+  if N.land low 32768 =? 0 then Ok (low, r)
+  else bind (rd_byte r) (fun high r' =>
+    Ok (N.lor (N.shiftl (N.land high 255) 15) (N.land low 32767), r')).
+Definition read_fshort_with (ru : N -> dec_t N) : dec_t N := fun s => bind (ru 2 s) impl_fshort_tail.
+Definition impl_read_fshort : dec_t N := read_fshort_with impl_read_uint.
 
-(* the format (Forge / Velocity writeExtendedForgeShort): 2-byte big-endian short whose top bit
-   announces a third byte carrying bits 15..22 *)
+(* the format (Forge / Velocity writeExtendedForgeShort), stated arithmetically: 2-byte big-endian
+   short whose top bit announces a third byte carrying bits 15..22 *)
 Definition spec_write_fshort (n : N) : bytes :=
   let low := n mod 32768 in
   let high := (n / 32768) mod 256 in
   if high =? 0 then be_enc 2 low else be_enc 2 (low + 32768) ++ [high].
-(* fx1 = false: the short is read with ReadUint16 as written (finding C03-1 applies to it) *)
-Definition fixed_read_fshort (fx1 : bool) : dec_t N := fun s =>
-  bind (read_uint fx1 2 s) (fun low r =>
-    if low <? 32768 then Ok (low, r)
-    else bind (rd_byte r) (fun high r' => Ok (high * 32768 + (low - 32768), r'))).
-Definition spec_read_fshort : dec_t N := fixed_read_fshort true.
+Definition spec_fshort_tail (low : N) (r : bytes) : res (N * bytes) :=
+  if low <? 32768 then Ok (low, r)
+  else bind (rd_byte r) (fun high r' => Ok ((high mod 256) * 32768 + (low - 32768), r')).
+Definition spec_read_fshort : dec_t N := fun s => bind (impl_read_uint 2 s) spec_fshort_tail.
 
-Definition write_fshort (fx3 : bool) : N -> bytes := if fx3 then spec_write_fshort else impl_write_fshort.
-Definition read_fshort (fx1 fx3 : bool) : dec_t N := if fx3 then fixed_read_fshort fx1 else impl_read_fshort.
+(* PRE-FIX (before 6e760d1, finding C03-3): WriteInt8(int8(low)) kept one byte of the short ... *)
+Definition old_write_fshort (n : N) : bytes :=
+  let low := N.land n 32767 in
+  let high := N.shiftr (N.land n 8355840) 15 in
+  let low := if high =? 0 then low else N.lor low 32768 in
+  (low mod 256) :: (if high =? 0 then [] else [high mod 256]).
+(* ... and the reader did ReadUint8, then tested bit 15 of an 8-bit value *)
+Definition old_read_fshort : dec_t N := fun s => bind (rd_byte s) impl_fshort_tail.
 
 Definition forge_max : N := 2097050.     (* ForgeMaxArrayLength = math.MaxInt32 & 0x1FFF9A *)
 
 (* WriteBytes17(wr, b, allowExtended) *)
-Definition write_bytes17 (fx3 ext : bool) (v : bytes) : res bytes :=
+Definition write_bytes17_with (wfs : N -> bytes) (ext : bool) (v : bytes) : res bytes :=
   if (if ext then forge_max <? len v else 32767 <? len v) then Err EOverLimit
-  else Ok (write_fshort fx3 (len v) ++ v).
+  else Ok (wfs (len v) ++ v).
+Definition write_bytes17 : bool -> bytes -> res bytes := write_bytes17_with impl_write_fshort.
 (* ReadBytes17 up to its make *)
-Definition len_bytes17 (fx1 fx3 : bool) : dec_t N := fun s =>
-  bind (read_fshort fx1 fx3 s) (fun n r => if forge_max <? n then Err EOverLimit else Ok (n, r)).
-Definition read_bytes17 (fx1 fx2 fx3 : bool) : dec_t bytes := fun s =>
-  bind (len_bytes17 fx1 fx3 s) (fun n r => if fx2 then rd_full n r else rd_read n r).
+Definition len_bytes17_with (rfs : dec_t N) : dec_t N := fun s =>
+  bind (rfs s) (fun n r => if forge_max <? n then Err EOverLimit else Ok (n, r)).
+Definition len_bytes17 : dec_t N := len_bytes17_with impl_read_fshort.
+(* b := make([]byte, length); _, err = io.ReadFull(rd, b) *)
+Definition impl_read_bytes17 : dec_t bytes := fun s => bind (len_bytes17 s) (fun n r => rd_full n r).
+(* PRE-FIX variants: one-byte short (C03-3) and/or a single rd.Read of the body (C03-2) *)
+Definition old_write_bytes17 : bool -> bytes -> res bytes := write_bytes17_with old_write_fshort.
+Definition old_read_bytes17 : dec_t bytes := fun s =>
+  bind (len_bytes17_with old_read_fshort s) (fun n r => rd_read n r).
 
 (* ---------- counted sequences (ReadStringArray, ReadVarIntArray, ReadIntArray, ReadKeyArray,
    ReadProperties): VarInt count, then count elements.  The Go loops run until the first error;
@@ -251,15 +264,18 @@ Definition read_sig : dec_t bytes := fun s =>
 Definition write_property (p : property) : bytes :=
   write_string (fst p) ++ write_string (fst (snd p)) ++ write_sig (snd (snd p)).
 Definition read_property : dec_t property := dec_pair read_string (dec_pair read_string read_sig).
-(* ReadProperties as written has no "size < 0" test: make(..., 0, min(size, 32768)) panics *)
-Definition read_properties (fx4 : bool) : dec_t (list property) :=
-  read_counted (if fx4 then ENegLen else EPanic) read_property.
+(* ReadProperties: if size < 0 { return error } *)
+Definition impl_read_properties : dec_t (list property) := read_counted ENegLen read_property.
+(* PRE-FIX (before 94741d1, finding C03-4): no "size < 0" test, make(..., 0, min(size, 32768)) panicked *)
+Definition old_read_properties : dec_t (list property) := read_counted EPanic read_property.
 Definition write_properties : list property -> bytes := write_counted write_property.
 
 (* ---------- ReadUTF / WriteUTF (java.io.DataOutput style) ---------- *)
 
 Definition write_utf (v : bytes) : bytes := be_enc 2 (len v) ++ v.     (* uint16(len(s)) *)
-Definition read_utf (fx1 : bool) : dec_t bytes := fun s => bind (read_uint fx1 2 s) (fun n r => rd_full n r).
+Definition read_utf_with (ru : N -> dec_t N) : dec_t bytes := fun s => bind (ru 2 s) (fun n r => rd_full n r).
+Definition impl_read_utf : dec_t bytes := read_utf_with impl_read_uint.
+Definition old_read_utf : dec_t bytes := read_utf_with old_read_uint.                (* PRE-FIX, C03-1 *)
 
 (* ---------- resource keys ---------- *)
 
@@ -313,8 +329,7 @@ Definition read_key_array : dec_t (list key) := read_counted ENegLen read_key.
 (* key.Minimal / WriteMinimalKey (no validation) *)
 Definition key_minimal (k : key) : bytes := if beq_bytes (fst k) minecraft then snd k else key_string k.
 Definition write_minimal_key (k : key) : bytes := write_string (key_minimal k).
-(* ReadMinimalKey as written: key.New(MinecraftNamespace, str) *)
-Definition impl_read_minimal_key : dec_t key := fun s => bind (read_string s) (fun str r => Ok ((minecraft, str), r)).
-(* inverse of key.Minimal: an explicit namespace is kept *)
-Definition spec_read_minimal_key : dec_t key := fun s => bind (read_string s) (fun str r => Ok (parse_identifier_key str, r)).
-Definition read_minimal_key (fx5 : bool) : dec_t key := if fx5 then spec_read_minimal_key else impl_read_minimal_key.
+(* ReadMinimalKey: parseIdentifierKey(str), the inverse of key.Minimal: an explicit namespace is kept *)
+Definition impl_read_minimal_key : dec_t key := fun s => bind (read_string s) (fun str r => Ok (parse_identifier_key str, r)).
+(* PRE-FIX (before 23e030f, finding C03-5): key.New(MinecraftNamespace, str) *)
+Definition old_read_minimal_key : dec_t key := fun s => bind (read_string s) (fun str r => Ok ((minecraft, str), r)).
